@@ -620,6 +620,12 @@ def obligations(tier):
          generalized_masks(), imp_aref_range(), generalized_force_inert(),
          unit_rot('spring', False, Q), unit_rot('spring', True, Q), unit_rot('positional', False, Q), unit_rot('positional', True, Q),
          integrate_unit('spring'), integrate_unit_ring(), push_only('spring'), bounded(tier)]
+  # the assumed contract of the contact.get cut ("separated geometry is reported with dist >= 0") rests on contact.get handing the collision routine the
+  # true world pose of every geom: that clause is proved here as well (same obligation as C10's)
+  from verif.contracts import C10
+  gp = C10.geom_pose()
+  gp.id = 'C06/contact.get/geom_world_pose'
+  obs.append(gp)
 
   def canary(A):
     # limits inert WITHOUT the precondition (coordinate may be outside the range) must be refuted
